@@ -632,6 +632,8 @@ class C14:
         return 240 if tier == "quick" else 3300
 
     def generate(self, seed, idx, tier):
+        if idx == 0:
+            return {"default_loader": True}       # one fixed case per run: the interpreter's own loader and a file that does not exist
         cseed = derive(seed, "C14", idx)
         ir = gen_ir(cseed)
         rng = Rng(derive(cseed, "tape"))
@@ -642,7 +644,38 @@ class C14:
         tape = make_tape(rng, ir, faults)
         return {"ir": ir, "tape": tape, "faults": faults}
 
+    DEFAULT_LOADER_PROGRAM = """fn tryimp() { try { import "/nonexistent-verif-dir/no_such_module"; return "loaded"; } catch e { return (type(e), e.derives(ImportError), e.derives(RuntimeError)); } }
+print(("ev", "dl", tryimp()));
+print(("ev", "dl", tryimp()));
+try { import "no_such_module_in_the_working_directory_verif"; } catch e2 { print(("ev", "dl2", type(e2))); }
+"""
+
+    def check_default_loader(self, sc, ctx):
+        """The interpreter's own loader (no simulated file system): a file that does not exist is an ImportError."""
+        stats = Stats()
+        stats.inc("default_loader_cases")
+        want = [[s("dl"), tup(cls("ImportError"), b(True), b(False))], [s("dl"), tup(cls("ImportError"), b(True), b(False))],
+                [s("dl2"), cls("ImportError")]]
+        run_sc = {"programs": [{"kind": "snippet", "source": self.DEFAULT_LOADER_PROGRAM}], "fs": {}, "tape": [], "faults": {},
+                  "config": {"default_loader": True}}
+        res = {"stats": stats, "nontrivial": False, "key": 1, "scenario": dict(sc)}
+        for config in ("checked", "release"):
+            h = ctx.run(config, run_sc)
+            stats.inc("executions")
+            po = process_outcome(h)
+            if po:
+                res["violation"] = {"class": po[0], "msg": "[%s] default loader: %s" % (config, po[1])}
+                return res
+            ev = h["programs"][0]["events"]
+            if ev != want or not h["programs"][0]["outcome"].get("ok"):
+                res["violation"] = {"class": "default-loader", "msg": "[%s] importing a file that does not exist through the interpreter's own loader: expected %s, got %s (%s)" % (
+                    config, json.dumps(want), json.dumps(ev)[:300], json.dumps(h["programs"][0]["outcome"])[:150])}
+                return res
+        return res
+
     def check(self, sc, ctx):
+        if sc.get("default_loader"):
+            return self.check_default_loader(sc, ctx)
         stats = Stats()
         ir = sc["ir"]
         try:
@@ -695,6 +728,8 @@ class C14:
 
     def shrink(self, sc):
         import copy
+        if sc.get("default_loader"):
+            return
         ir = sc["ir"]
         for site in sorted(sc["faults"]):
             yield dict(sc, faults={k: v for k, v in sc["faults"].items() if k != site})
